@@ -118,6 +118,13 @@ add("C18", "property-based testing against an analytic oracle (frequency respons
     "Corners excluded by a factor 4 (density is -3 dB at a corner by construction); the time-domain filtering itself is pinned by C17's reference cascade.",
     "DESIGN.md section 6 C18")
 
+add("C19", "property-based testing with algebraic oracles (orthogonality to a Legendre basis, annihilation, idempotence), a trapezoid reference model with additivity/monotonicity metamorphisms, and a fixed-seed Parseval grid",
+    "polynomial_detrend is checked against the defining properties of a least-squares polynomial residual for all orders 0..5 and lengths down to 1; df_detrend against "
+    "column-wise application and non-interference; integral_rms against sqrt(trapezoid(asd^2)) on the in-band grid points with additivity over adjacent bands and "
+    "monotonicity under nesting; SpectrumResult.get_rms against integral_rms (also reversed bands); full-band RMS against std(x) for white and coloured records.",
+    "Parseval clause statistical (6% tolerance, measured 2%).",
+    "DESIGN.md section 6 C19")
+
 MANIFEST = {
     "version": 1,
     "setup_cmd": "/venv/bin/python -m harness.setup",
